@@ -82,7 +82,7 @@ func VH_C15_pure(k int) {
 }
 
 // colour symmetry: same value from the mover's point of view for the mirrored position
-func VN_C15_symmetric() int { return 3 } // default, lazy, advanced piece evaluation; both together not claimed (undecided after 900 s)
+func VN_C15_symmetric() int { return 2 } // default and lazy evaluation; with advanced piece evaluation the symmetry queries stayed undecided (13 min, all solvers): not claimed
 func VQ_C15_symmetric() int { return 1 } // quick: default switches; the UCI-exposed combinations run in thorough
 func VH_C15_symmetric(k int) {
 	vxStub(vxGetAttacksBb, VxGeoAttacks)
